@@ -29,6 +29,15 @@ CLAIMED = {
              'interpreter + layout prediction; stray #else/#elif/#endif must be rejected. thorough: exhaustive small structures '
              'x truth assignments.',
         note='Trusted: vf/model/cond.py; conditions over undefined symbols and includes issued while muted are DONT_CARE.'),
+    'C09': dict(
+        category='exploration', design_ref='DESIGN.md §3 C09',
+        technique='runtime monitoring: whole-word fix-point substitution model + reference evaluator vs probe bytes of real CLI '
+                  'runs; resolve_symbols in/out probe',
+        text='Symbols from all three definition sources with literal / expression / symbol-chain / diamond / cyclic values; probe '
+             'lines mix symbols with constants and labels whose names contain a symbol as prefix, suffix or infix; use before '
+             'definition; double definitions across every source pair. Probe bytes must equal evaluate(substitute(line)); used '
+             'cycles and double definitions must be rejected (and terminate: step-bounded).',
+        note='Trusted: vf/model/subst.py + vf/model/expr.py parser/evaluator; unused cycles are DONT_CARE.'),
     'C11': dict(
         category='exploration', design_ref='DESIGN.md §3 C11',
         technique='runtime monitoring: byte-model oracle over real CLI runs of generated data/string/fill programs',
